@@ -9,7 +9,7 @@
    (PStart true -> hit | wait again | create) — the `for ok` loop; any label (a third caller, a cleaning pass, ...)
    may stand between them. *)
 From Coq Require Import List ZArith Permutation Lia.
-From C18 Require Import Model ProofsRelease ProofsManaged ProofsCoherent ProofsPayload ProofsAcct ProofsBound ProofsListing ProofsFull ProofsSingle.
+From C18 Require Import Model ProofsRelease ProofsManaged ProofsCoherent ProofsPayload ProofsAcct ProofsBound ProofsListing ProofsFull ProofsSingle ProofsPass.
 Import ListNotations.
 
 (* Coherence, all interleavings (no domain restriction): a lookup that returned a value returned a
@@ -78,6 +78,17 @@ Theorem C18_cleanup_bounds : forall st st' r,
 Proof. exact cleanup_pass_bound. Qed.
 Print Assumptions C18_cleanup_bounds.
 
+(* What "a cleaning pass with nothing in between" means in the two bound theorems: the event ECleanup is exactly the label
+   list LCleanBegin (getSize + markStale) :: LCleanCache b1 :: ... :: LCleanCache bn (Cache.Cleanup of every bucket of the
+   snapshot) of the interleaving semantics, or LCleanBegin alone when the pass does not start. In [run] these are separate
+   labels: every other theorem above and below holds with ANY labels between them (a save of a load started before the
+   pass, a hit that re-homes an entry, a Rotate ...); the bound does not (Example C18_interrupted_pass_exceeds_limit). *)
+Theorem C18_cleanup_pass_is_labels : forall st st' r, exec_ev st ECleanup = Some (st', r) ->
+  (hd 0%Z r = 1%Z /\ run st (LCleanBegin :: map LCleanCache (buckets st)) = Some st') \/
+  (hd 0%Z r <> 1%Z /\ run st [LCleanBegin] = Some st').
+Proof. exact cleanup_is_labels. Qed.
+Print Assumptions C18_cleanup_pass_is_labels.
+
 (* ... and from any such reachable state the LIVE size is under the limit too, and accounted = live. *)
 Theorem C18_cleanup_live_bound : forall lim mg es ls st st' r,
   (0 <= es)%Z -> (0 < lim)%Z -> Forall label_ok ls ->
@@ -118,7 +129,7 @@ Open Scope Z_scope.
    accounted 336, live 168. With the loop (the code as it is) B is served from C's entry: value 8, 168 = 168. *)
 Definition w_retry := [LNewCache; LSpawn 0 1 OErr; LStep 0; LSpawn 0 1 (OVal 7 100); LStep 1; LStep 0; LStep 1;
   LSpawn 0 1 (OVal 8 100); LStep 2; LStep 2; LStep 2; LStep 1].
-Definition v_m9 := mkV true true true true true true false.
+Definition v_m9 := mkV true true true true true true false true.
 Example C18_retry_without_recheck_refuted :
   race_free (init 2000 100 68) (w_retry ++ [LStep 1; LStep 1]) = true /\
   (exists st, run_v v_m9 (init 2000 100 68) (w_retry ++ [LStep 1; LStep 1]) = Some st /\
@@ -148,6 +159,41 @@ Example C18_retry_without_recheck_two_loaders :
               map eattached (entries st) = [false; true]).
 Proof. split; eexists; (split; [vm_compute; reflexivity|split; vm_compute; reflexivity]). Qed.
 
+(* a seeded regression (never in /repo's history; round-6 seed C18-m12): save's `if e.deleted { size = 0 }` widened to
+   `if e.deleted || e.gen.stale { size = 0 }`. A load of key 1 (100 bytes + entrySize 68) is in flight in generation G0;
+   a cleaning pass starts (limit 100 < 168 accounted): markStale rotates and marks G0 stale; the load finishes AFTER that
+   and BEFORE its cache is swept; save re-homes the entry to the fresh generation, so the sweep keeps it: it is served as a
+   hit and occupies 168 bytes, but with the widened test its size field and the cleaner's account are 0.
+   With the code as it is: accounted 168 = live 168 = occupied 168. *)
+Definition w_m12 := [LNewCache; LSpawn 0 7 (OVal 1 100); LStep 0; LStep 0; LStep 0; LSpawn 0 1 (OVal 2 100); LStep 1;
+  LCleanBegin; LStep 1; LStep 1; LCleanCache 0].
+Definition v_m12 := mkV true true true true true true true false.
+Example C18_save_stale_zero_refuted :
+  race_free (init 100 5 68) w_m12 = true /\
+  (exists st, run_v v_m12 (init 100 5 68) w_m12 = Some st /\ acct st = 0 /\ live st = 0 /\ occupied st = 168 /\
+              map eattached (entries st) = [false; true]) /\
+  (exists st, run (init 100 5 68) w_m12 = Some st /\ acct st = 168 /\ live st = 168 /\ occupied st = 168).
+Proof.
+  split; [vm_compute; reflexivity|].
+  split; eexists; (split; [vm_compute; reflexivity|repeat split; vm_compute; reflexivity]).
+Qed.
+
+(* the bound of C18_cleanup_bounds needs the pass to be uninterrupted: the same interleaving with a 500-byte load ends the
+   pass with accounted = live = 568 > limit 100 (the entry saved inside the pass belongs to the fresh generation); the
+   uninterrupted pass from the state after that save ends with 0 *)
+Definition w_interrupted := [LNewCache; LSpawn 0 7 (OVal 1 100); LStep 0; LStep 0; LStep 0; LSpawn 0 1 (OVal 2 500); LStep 1;
+  LCleanBegin; LStep 1; LStep 1; LCleanCache 0].
+Example C18_interrupted_pass_exceeds_limit :
+  race_free (init 100 5 68) w_interrupted = true /\
+  (exists st, run (init 100 5 68) w_interrupted = Some st /\ acct st = 568 /\ live st = 568 /\ limit st = 100) /\
+  (exists st st' r, run (init 100 5 68) (firstn 7 w_interrupted ++ [LStep 1; LStep 1]) = Some st /\
+                    exec_ev st ECleanup = Some (st', r) /\ acct st' = 0).
+Proof.
+  split; [vm_compute; reflexivity|]. split.
+  - eexists. split; [vm_compute; reflexivity|repeat split; vm_compute; reflexivity].
+  - eexists. eexists. eexists. split; [vm_compute; reflexivity|]. split; vm_compute; reflexivity.
+Qed.
+
 (* non-vacuity of C18_single_flight: the three-caller schedule is inside the domain and passes through PRetry *)
 Example C18_single_flight_nonvacuous :
   race_free (init 2000 100 68) w_retry = true /\
@@ -162,7 +208,7 @@ Proof. split; vm_compute; reflexivity. Qed.
 
 Definition w_release := [LNewCache; LNewCache; LNewCache; LNewCache; LRelease 1; LRelease 3; LRelCollect; LRelRemove].
 Example C18_release_buckets_v0_refuted :
-  exists st, run_v (mkV true true false true true true true) (init 0 0 68) w_release = Some st /\
+  exists st, run_v (mkV true true false true true true true true) (init 0 0 68) w_release = Some st /\
              is_released (caches st) 2 = false /\ ~ In 2%nat (buckets st).
 Proof. eexists. split; [vm_compute; reflexivity|]. split; [reflexivity|]. simpl. intuition discriminate. Qed.
 
@@ -172,7 +218,7 @@ Definition w_recover := [LNewCache; LSpawn 0 7 (OVal 1 100); LStep 0; LStep 0; L
   LCleanBegin; LCleanCache 0; LSpawn 0 1 (OVal 2 50); LStep 2; LStep 2; LStep 2; LStep 1].
 Example C18_recover_v0_refuted :
   race_free (init 1 0 68) w_recover = true /\
-  (exists st, run_v (mkV false true true true true true true) (init 1 0 68) w_recover = Some st /\ acct st = 118 /\ live st = 0) /\
+  (exists st, run_v (mkV false true true true true true true true) (init 1 0 68) w_recover = Some st /\ acct st = 118 /\ live st = 0) /\
   (exists st, run (init 1 0 68) w_recover = Some st /\ acct st = 118 /\ live st = 118).
 Proof. split; [vm_compute; reflexivity|]. split; eexists; (split; [vm_compute; reflexivity|split; vm_compute; reflexivity]). Qed.
 
@@ -182,7 +228,7 @@ Definition w_save := [LNewCache; LSpawn 0 7 (OVal 1 100); LStep 0; LStep 0; LSte
   LRotate; LSpawn 0 7 (OVal 3 100); LStep 2; LGcGens; LStep 1; LStep 1].
 Example C18_save_v0_refuted :
   race_free (init 2000 100 68) w_save = true /\
-  (exists st, run_v (mkV true false true true true true true) (init 2000 100 68) w_save = Some st /\ acct st = 168 /\ live st = 286) /\
+  (exists st, run_v (mkV true false true true true true true true) (init 2000 100 68) w_save = Some st /\ acct st = 168 /\ live st = 286) /\
   (exists st, run (init 2000 100 68) w_save = Some st /\ acct st = 286 /\ live st = 286).
 Proof. split; [vm_compute; reflexivity|]. split; eexists; (split; [vm_compute; reflexivity|split; vm_compute; reflexivity]). Qed.
 
@@ -202,7 +248,7 @@ Definition w_gc_pending := [LNewCache; LSpawn 0 2 (OVal 1 200); LStep 0; LStep 0
   LStep 1; LStep 1; LRotate; LSpawn 0 2 (OVal 3 1); LStep 2; LGcGens; LStep 1].
 Example C18_save_add_after_unlock_v0_refuted :
   race_free (init 2000 100 68) w_gc_pending = true /\
-  (exists st, run_v (mkV true true true false true true true) (init 2000 100 68) w_gc_pending = Some st /\ acct st = 268 /\ live st = 386) /\
+  (exists st, run_v (mkV true true true false true true true true) (init 2000 100 68) w_gc_pending = Some st /\ acct st = 268 /\ live st = 386) /\
   (exists st, run (init 2000 100 68) w_gc_pending = Some st /\ acct st = 386 /\ live st = 386).
 Proof. split; [vm_compute; reflexivity|]. split; eexists; (split; [vm_compute; reflexivity|split; vm_compute; reflexivity]). Qed.
 
@@ -242,7 +288,7 @@ Definition w_rebuild := LNewCache :: fill_labels 200 ++
   [LRotate; LSpawn 0 1 (OVal 999 50); LStep 200; LCleanBegin; LCleanCache 0; LSpawn 0 1 (OVal 998 50); LStep 201; LStep 200; LStep 200].
 Example C18_rebuild_skips_loading_v0_refuted :
   race_free (init 13500 675 68) w_rebuild = true /\
-  (exists st, run_v (mkV true true true true true false true) (init 13500 675 68) w_rebuild = Some st /\ nrec st = 1 /\
+  (exists st, run_v (mkV true true true true true false true true) (init 13500 675 68) w_rebuild = Some st /\ nrec st = 1 /\
               thread_pc st 201 = Some (PLoad 201) /\ acct st = 118 /\ live st = 0) /\
   (exists st, run (init 13500 675 68) w_rebuild = Some st /\ nrec st = 1 /\
               thread_pc st 201 = Some (PWait 200) /\ acct st = 118 /\ live st = 118).
@@ -262,7 +308,7 @@ Definition w_rotate := [LNewCache; LSpawn 0 1 (OVal 1 200); LStep 0; LStep 0; LS
   LSpawn 1 1 (OVal 3 400); LStep 2; LStep 2; LStep 2; LCleanBegin].
 Example C18_rotate_split_v0_refuted :
   race_free (init 500 25 68) w_rotate = true /\
-  (exists st, run_v (mkV true true true true false true true) (init 500 25 68) w_rotate = Some st /\
+  (exists st, run_v (mkV true true true true false true true true) (init 500 25 68) w_rotate = Some st /\
               map ccur (caches st) = [1; 0]%nat /\ lastgen st = 1%nat /\ acct st = 368 /\ live st = 836 /\ ret st = [0]) /\
   (exists st, run (init 500 25 68) w_rotate = Some st /\
               map ccur (caches st) = [2; 2]%nat /\ lastgen st = 2%nat /\ hd 0 (ret st) = 1).
